@@ -41,6 +41,36 @@ def install():
     sys.path.insert(0, repo)
     for k in [k for k in sys.modules if k == 's3transfer' or k.startswith('s3transfer.')]:
         del sys.modules[k]
+    mods = ('s3transfer', 's3transfer.compat', 's3transfer.exceptions', 's3transfer.constants',
+            's3transfer.utils', 's3transfer.futures', 's3transfer.tasks',
+            's3transfer.subscribers', 's3transfer.bandwidth', 's3transfer.upload',
+            's3transfer.download', 's3transfer.copies', 's3transfer.delete',
+            's3transfer.manager', 's3transfer.processpool')
+    import importlib
+    # (1) a plain import first, so that every dependency outside the package
+    # (botocore, multiprocessing, ...) is loaded with the real standard modules
+    for m in mods:
+        importlib.import_module(m)
+    # (2) the package itself is executed again with the simulated threading /
+    # queue / concurrent.futures / time in sys.modules, so that also objects it
+    # creates at import time (module- or class-level locks, default arguments)
+    # belong to the simulator
+    for k in [k for k in sys.modules if k == 's3transfer' or k.startswith('s3transfer.')]:
+        del sys.modules[k]
+    swap = {'threading': simstd.simthreading, 'queue': simstd.simqueue,
+            'concurrent': simstd.sim_concurrent, 'concurrent.futures': simstd.sim_cf,
+            'time': simstd.sim_time}
+    saved = {k: sys.modules.get(k) for k in swap}
+    sys.modules.update(swap)
+    try:
+        for m in mods:
+            importlib.import_module(m)
+    finally:
+        for k, v in saved.items():
+            if v is None:
+                sys.modules.pop(k, None)
+            else:
+                sys.modules[k] = v
     import s3transfer
     got = os.path.realpath(os.path.dirname(os.path.dirname(s3transfer.__file__)))
     if got != repo:
